@@ -128,6 +128,13 @@ where
     }
 }
 
+#[cfg(bma400_verif)]
+impl ActChgConfig {
+    pub(crate) fn verif_regs(&self) -> [(u8, u8); 2] {
+        verif_regs!(self; actchg_config0, actchg_config1)
+    }
+}
+
 #[cfg(test)]
 mod tests {
     use super::*;
